@@ -9,7 +9,7 @@ import lib
 from lib import zlit, vlist
 
 LEVEL = "proof"
-UNITS = ["GenGeometryLinks", "GenGeometry"]
+UNITS = ["GenGeometryLinks", "GenGeometry", "GenRouteShape"]
 TWO53 = 2 ** 53
 
 # the oracle's own link table (SpiNNaker numbering), not read from rig
@@ -306,6 +306,58 @@ def history_states(c):
     return out
 
 
+def gen_shared_case(rng):
+    """several nets in one route() call that share vertices and chips: a few chips with several vertices each,
+    every net draws its source and sinks from that pool; some nets are repeated as they are, some as a twin
+    (other vertices on the same chips: identical endpoint chips); a few dead links so that only some of the
+    equally short routes cross a fault"""
+    w, h = rng.choice([(3, 3), (4, 4), (4, 4), (5, 5), (5, 5), (4, 3), (6, 6), (2, 5), (1, 6)])
+    chips = [(x, y) for x in range(w) for y in range(h)]
+    topo = rng.choice(["torus", "torus", "mesh"])
+    dl = set(wrap_links(w, h)) if topo == "mesh" else set()
+    for _ in range(rng.randint(0, 4)):
+        x, y = rng.choice(chips)
+        l = rng.randrange(6)
+        dl.add((x, y, l))
+        if rng.random() < 0.6:
+            dx, dy = VEC[l]
+            dl.add(((x + dx) % w, (y + dy) % h, OPP[l]))
+    dead_chips = set()
+    if len(chips) > 6 and rng.random() < 0.25:
+        dead_chips.add(rng.choice(chips))
+    live = [ch for ch in chips if ch not in dead_chips]
+    pool_chips = rng.sample(live, min(len(live), rng.randint(2, 5)))
+    placements, on_chip = {}, {}
+    for ch in pool_chips:
+        for _ in range(rng.randint(2, 4)):
+            v = len(placements)
+            placements[v] = list(ch)
+            on_chip.setdefault(ch, []).append(v)
+    verts = sorted(placements)
+    nets = []
+    for _ in range(rng.randint(2, 4)):
+        src = rng.choice(verts)
+        sinks = [rng.choice(verts) for _ in range(rng.randint(1, 6))]
+        nets.append(dict(source=src, sinks=sinks))
+        k = rng.random()
+        if k < 0.35:
+            nets.append(dict(source=src, sinks=list(sinks)))
+        elif k < 0.7:
+            twin = lambda v: rng.choice(on_chip[tuple(placements[v])])
+            nets.append(dict(source=twin(src), sinks=[twin(v) for v in sinks]))
+    allocs = {}
+    for v in verts:
+        if rng.random() < 0.75:
+            a = rng.randint(0, 15)
+            allocs[v] = [a, a + rng.randint(1, 3)]
+    ndest = sum(len(n["sinks"]) for n in nets)
+    return dict(machine=dict(w=w, h=h, dead_chips=sorted(map(list, dead_chips)),
+                             dead_links=sorted([x, y, l] for x, y, l in dl)),
+                nets=nets, placements=sorted(placements.items()), allocs=sorted(allocs.items()), cons=[],
+                radius=rng.choice([0, 1, 20, 20]), stream=[rng.randrange(TWO53) for _ in range(8 * ndest + 8)],
+                kind="valid", topo=topo, fault="shared-nets", sstyle="random", core_res=None, decoy=False)
+
+
 def gen_ner_case(rng):
     """ner_net alone on a fault-free machine: the setting of theorem C03_ner_net_tree"""
     w, h = rng.choice(DIMS + [(8, 8), (9, 7), (1, 7), (2, 7), (7, 1)])
@@ -526,6 +578,99 @@ def treel(t):
                             vlist("(%s, %s)" % (optz(r), treel(k)) for r, k in t[3]))
 
 
+def treel_any(t):
+    """Coq literal of a tree in either serialisation (the flat one is assembled without recursion)"""
+    if t[0] != "flat":
+        return treel(t)
+    nodes, lvs = t[1], t[2]
+    kids = [[] for _ in nodes]
+    for i, r, v in lvs:
+        kids[i].append((r, None, v))
+    for j, n in enumerate(nodes):
+        if n[2] >= 0:
+            kids[n[2]].append((n[3], j, None))
+    text = [None] * len(nodes)
+    for j in range(len(nodes) - 1, -1, -1):           # children have larger indices (depth-first order)
+        # leaves were appended after the subtrees by route(); keep the order of the children list: subtrees
+        # (in index order) first, then leaves
+        ks = sorted((k for k in kids[j] if k[1] is not None), key=lambda k: k[1]) + \
+            [k for k in kids[j] if k[1] is None]
+        text[j] = "RNode %s %s" % (chipl((nodes[j][0], nodes[j][1])), vlist(
+            "(%s, %s)" % (optz(r), text[ch] if ch is not None else "RLeaf %s" % zlit(v)) for r, ch, v in ks))
+        for r, ch, v in ks:
+            if ch is not None:
+                text[ch] = None
+    return text[0]
+
+
+def _lits(c):
+    pl = vlist("(%s, %s)" % (zlit(v), chipl(xy)) for v, xy in c["placements"])
+    cons = vlist("(%s, %s)" % (zlit(v), zlit(r)) for v, r in c["cons"])
+    al = vlist("(%s, (%s, %s))" % (zlit(v), zlit(a), zlit(b)) for v, (a, b) in c["allocs"])
+    return pl, cons, al
+
+
+def _order(e):
+    return "None" if e.get("broken") is None else "(Some %s)" % vlist(
+        "(%s, %s)" % (chipl(p), chipl(ch)) for p, ch in e["broken"])
+
+
+def coq_nets_expr(c, out):
+    """the loop over the nets of one call (Model/RouteMulti.v route_nets) on the call's whole stream"""
+    pl, cons, al = _lits(c)
+    nets = []
+    for net, e in zip(c["nets"], out["nets"]):
+        nets.append("{| n_source := %s; n_sinks := %s; n_dests := %s; n_order := %s |}" % (
+            zlit(net["source"]), vlist(zlit(v) for v in net["sinks"]), vlist(chipl(d) for d in e["dests"]), _order(e)))
+    end = max([e.get("pos_end", len(c["stream"])) for e in out["nets"]] or [0])
+    done = [e["final"] for e in out["nets"] if e.get("final") is not None]
+    return "nets_case (route_nets %s %s %s %s %s %s %s) %s" % (
+        machl(c["machine"]), vlist(nets), pl, cons, al, zlit(c["radius"]),
+        vlist(zlit(k) for k in c["stream"][:end]), vlist(treel(t) for t in done))
+
+
+def coq_hist_expr(c, o):
+    """a re-used Machine object (Model/RouteMulti.v run_history): edits and route() calls in order"""
+    pl, cons, al = _lits(c)
+    net = c["nets"][0]
+    ops, exp, k = [], [], 0
+    for op in c["steps"]:
+        if op[0] == "route":
+            st = o["steps"][k]
+            k += 1
+            e = st["nets"][0] if st["nets"] else {}
+            ops.append("MRoute %s %s" % (vlist(zlit(x) for x in c["stream"][:e.get("pos_end", len(c["stream"]))]),
+                                         _order(e)))
+            if st["error"]:
+                exp.append("(%s, None)" % zlit(1 if st["error"][0] == "disconnected" else 2))
+            else:
+                exp.append("(0, Some (%s))" % treel(e["final"]))
+        elif op[0] in ("dl_add", "dl_discard"):
+            ops.append("%s %s %s" % ("MDlAdd" if op[0] == "dl_add" else "MDlDiscard", chipl(op[1][:2]), zlit(op[1][2])))
+        elif op[0] == "dl_update":
+            ops.append("MDlUpdate %s" % vlist("(%s, %s)" % (chipl((x, y)), zlit(l)) for x, y, l in op[1]))
+        elif op[0] == "dl_clear":
+            ops.append("MDlClear")
+        else:
+            ops.append("%s %s" % ("MDcAdd" if op[0] == "dc_add" else "MDcDiscard", chipl(op[1])))
+    dests = vlist(chipl(d) for d in o["steps"][0]["nets"][0]["dests"])
+    return "hist_eqb (run_history %s %s %s %s %s %s %s %s %s) %s" % (
+        machl(c["machine"]), vlist(ops), zlit(net["source"]), vlist(zlit(v) for v in net["sinks"]), dests,
+        pl, cons, al, zlit(c["radius"]), vlist(exp))
+
+
+def coq_check_tree_expr(c, out, i):
+    """the verified validator alone, on one returned tree (used for the long routes)"""
+    e = out["nets"][i]
+    net = c["nets"][i]
+    pl = vlist("(%s, %s)" % (zlit(v), chipl(xy)) for v, xy in c["placements"])
+    cons = vlist("(%s, %s)" % (zlit(v), zlit(r)) for v, r in c["cons"])
+    al = vlist("(%s, (%s, %s))" % (zlit(v), zlit(a), zlit(b)) for v, (a, b) in c["allocs"])
+    src = dict((v, xy) for v, xy in c["placements"])[net["source"]]
+    return "check_tree %s %s (sink_reqs %s %s %s %s) (%s)" % (
+        machl(c["machine"]), chipl(src), vlist(zlit(v) for v in net["sinks"]), pl, cons, al, treel_any(e["final"]))
+
+
 def machl(m):
     return "{| rm_w := %s; rm_h := %s; rm_dead_chips := %s; rm_dead_links := %s |}" % (
         zlit(m["w"]), zlit(m["h"]), vlist(chipl(c) for c in m["dead_chips"]),
@@ -533,13 +678,31 @@ def machl(m):
 
 
 HEADER = """From Coq Require Import ZArith List Bool. Import ListNotations. Open Scope Z_scope.
-Require Import Rig.Model.Base Rig.Model.Route Rig.Spec.Route.
+Require Import Rig.Model.Base Rig.Model.Route Rig.Model.RouteMulti Rig.Spec.Route.
 Definition cls {A} (r : result A) : Z :=
   match r with Ok _ => 0 | Failed _ => 1 | OtherError => 2 | OutOfFuel => 3 end.
 Definition ner_same (r : result (rtree * list chip)) (t : option rtree) (keys : list chip) : bool :=
   match r, t with Ok (t', keys'), Some t => rtree_eqb t' t && chips_eqb keys' keys | _, _ => false end.
 Definition fin_same (r : result rtree) (t : option rtree) : bool :=
   match r, t with Ok t', Some t => rtree_eqb t' t | _, _ => false end.
+Fixpoint trees_eqb (a b : list rtree) : bool :=
+  match a, b with
+  | [], [] => true
+  | x :: a', y :: b' => rtree_eqb x y && trees_eqb a' b'
+  | _, _ => false
+  end.
+(* the whole call: class of the model's result and, if Ok, equality of all trees in order *)
+Definition nets_case (r : result (list rtree)) (ts : list rtree) : Z * bool :=
+  (cls r, match r with Ok l => trees_eqb l ts | _ => true end).
+(* a history: per route() call the class and the tree *)
+Fixpoint hist_eqb (l : list (rmachine * result rtree)) (e : list (Z * option rtree)) : bool :=
+  match l, e with
+  | [], [] => true
+  | (_, r) :: l', (k, t) :: e' =>
+      (cls r =? k) && match r, t with Ok x, Some y => rtree_eqb x y | Ok _, None => false | _, _ => true end
+      && hist_eqb l' e'
+  | _, _ => false
+  end.
 (* has_wrap, ner tree + dict keys equal, class of the model's result, final tree equal, check_tree on the
    implementation's tree, check_connected *)
 Definition route_case (m : rmachine) (pl : list (Z * chip)) (cons : list (Z * Z)) (al : list (Z * (Z * Z)))
@@ -682,6 +845,8 @@ def run(chk, args):
     rng = chk.rng
     quick = chk.tier == "quick"
     pending = []            # (case, out, net index or None): to be evaluated in Coq
+    long_v = []             # long routes: the verified validator only, one file per tree
+    multi = []              # (kind, case, out): whole calls with several nets, whole histories
     state = dict(sampled=False)
 
     def judge(c, o, coq=True):
@@ -728,20 +893,25 @@ def run(chk, args):
         if coq and o != ["hang"]:
             for i in range(len(o["nets"])):
                 pending.append((c, o, i))
+            if len(c["nets"]) >= 2 and all(e.get("ner", ["x"])[0] == "n" for e in o["nets"]) and \
+                    all(e.get("final", ["n"])[0] == "n" for e in o["nets"]) and \
+                    (not o["error"] or o["error"][0] in ("disconnected", "other")):
+                multi.append(("nets", c, o))
 
     if args.replay:
         rp = json.load(open(args.replay))
         cases = [f["replay"]["case"] for f in rp.get("failures", []) if "case" in f.get("replay", {})]
         cases += [b["replay"]["case"] for b in rp.get("no_longer_checks", []) if "case" in b.get("replay", {})]
     else:
-        n_route = 2000 if quick else 30000
-        n_ner = 800 if quick else 8000
+        n_route = 1700 if quick else 30000
+        n_ner = 500 if quick else 8000
         cases = [gen_case(rng, malformed=(i % 25 == 24), dense=(i % 3 == 0), narrow=(i % 6 == 1))
                  for i in range(n_route)]
         # the hexagon-scan branch needs more than 3 * (1 + 3r(r+1)) route nodes: large fan-out
         for i in range(20 if quick else 300):
             cases.append(gen_case(rng, dims=rng.choice([(8, 8), (9, 8), (10, 10)])))
         cases += [gen_ner_case(rng) for _ in range(n_ner)]
+        cases += [gen_shared_case(rng) for _ in range(300 if quick else 4000)]
         corpus = os.path.join(lib.VERIF, "corpus", "C03.json")
         if os.path.exists(corpus):
             cases = json.load(open(corpus)) + cases
@@ -758,6 +928,8 @@ def run(chk, args):
         for c, o in zip(longs, chk.impl("impl_c03.py", longs, timeout=3000)):
             chk.count("long-route-cases")
             judge(c, o, coq=False)
+            if isinstance(o, dict) and not o["error"] and o["nets"][0].get("final", ["huge"])[0] in ("n", "flat"):
+                long_v.append((c, o))
         hist = [gen_history(rng) for _ in range(250 if quick else 3000)]
         hchunks = [hist[i:i + 60] for i in range(0, len(hist), 60)]
         for part, outp in zip(hchunks, chk.impl_parallel("impl_c03.py", hchunks, timeout=3000)):
@@ -765,16 +937,21 @@ def run(chk, args):
                 if not isinstance(o, dict):
                     continue
                 chk.count("histories")
+                if all(not st["error"] or st["nets"] for st in o["steps"]) and all(
+                        e.get("final", ["n"])[0] == "n" for st in o["steps"] for e in st["nets"]) and \
+                        o["steps"] and o["steps"][0]["nets"]:
+                    multi.append(("hist", c, o))
                 for k, (mstate, ok) in enumerate(zip(history_states(c), o["steps"])):
                     ck = dict(c, kind="valid", machine=mstate, fault="history-step-%d" % min(k, 3))
                     judge(ck, ok)
     # a larger dense-fault stream judged by the independent oracle only (the repair step is where trees go wrong;
     # about one dense case in a thousand made the code as found attach a chip twice)
     if not args.replay:
-        n_dense = 10000 if quick else 150000
-        n_narrow = 6000 if quick else 60000
+        n_dense = 8000 if quick else 150000
+        n_narrow = 5000 if quick else 60000
         dense = ([gen_case(rng, dense=True) for _ in range(n_dense)] +
-                 [gen_case(rng, narrow=True) for _ in range(n_narrow)])
+                 [gen_case(rng, narrow=True) for _ in range(n_narrow)] +
+                 [gen_shared_case(rng) for _ in range(4000 if quick else 60000)])
         dchunks = [dense[i:i + 700] for i in range(0, len(dense), 700)]
         for part, outp in zip(dchunks, chk.impl_parallel("impl_c03.py", dchunks, timeout=3000)):
             for c, o in zip(part, outp):
@@ -872,17 +1049,55 @@ def run(chk, args):
                 chk.oblige("correspondence:ner_net exact tree and dict-order equality (%d executions), route() final "
                            "tree equality (%d nets), check_tree accepted / agreed with the oracle on %d real outputs"
                            % (n_ner, n_fin, n_v), True)
+    if chk.model_ok and built is not False and multi:
+        try:
+            vs = chk.coq_eval(HEADER, [coq_nets_expr(c, o) if k == "nets" else coq_hist_expr(c, o) for k, c, o in multi],
+                              shard=max(20, -(-len(multi) // 12)), timeout=2400, name="multi")
+            nbad = 0
+            for (k, c, o), v in zip(multi, vs):
+                chk.traces_validated += 1
+                if k == "nets":
+                    want = 0 if not o["error"] else (1 if o["error"][0] == "disconnected" else 2)
+                    good = (v[0] == want and v[1] is True)
+                else:
+                    good = v is True
+                if not good:
+                    nbad += 1
+                    if nbad <= 3:
+                        chk.disagree("%s: model of the whole call / history differs from the implementation (%r)"
+                                     % ("route() over several nets" if k == "nets" else "re-used Machine", v),
+                                     dict(case=c, observed=o))
+            if not nbad:
+                chk.oblige("correspondence:route_nets on %d calls with several nets (whole stream, all trees) and "
+                           "run_history on %d re-used Machine histories"
+                           % (sum(1 for k, _, _ in multi if k == "nets"), sum(1 for k, _, _ in multi if k == "hist")), True)
+        except RuntimeError as e:
+            chk.oblige("correspondence:multi-model-evaluates", False, str(e))
+    if chk.model_ok and built is not False and long_v:
+        try:
+            vs = chk.coq_eval(HEADER, [coq_check_tree_expr(c, o, 0) for c, o in long_v], shard=1, timeout=1200,
+                              name="long")
+            bad = [c for (c, o), v in zip(long_v, vs) if v is not True]
+            for c in bad[:2]:
+                chk.oblige("validators-agree", False, "check_tree (Coq) = false on a long route the oracle accepts: %dx%d"
+                           % (c["machine"]["w"], c["machine"]["h"]))
+            if not bad:
+                chk.oblige("validator:check_tree accepts the long routes (%d trees of 1200-2500 hops)" % len(vs), True)
+        except RuntimeError as e:
+            chk.oblige("validator:long-routes-evaluate", False, str(e))
     chk.coverage["rule"] = (
         "route(): random machines up to 7x7 (plus 8x8..10x10 for the hexagon-scan branch, up to 8x12 in the dense-fault "
         "stream) incl. 1xN and 2xN, torus / mesh / partly wrapped, dead chips, dead links in one or both directions, "
         "clustered faults, every third case dense faults (10-20 % of the directed links dead, 0-5 dead chips) plus a larger "
-        "dense-fault stream judged by the oracle only (10000 cases quick, 150000 thorough) and a narrow-machine stream "
+        "dense-fault stream judged by the oracle only (8000 cases quick, 150000 thorough) and a narrow-machine stream "
         "(1xN, 2xN, Nx1, Nx2, N <= 12, dead chips in the middle, mostly one-directional dead links, fan-out 3..12; "
-        "every sixth compared case plus 6000 / 60000 oracle-only); core_resource default or a custom key (with a "
+        "every sixth compared case plus 5000 / 60000 oracle-only); core_resource default or a custom key (with a "
         "decoy allocation under Cores); six long-route cases (3x2500, 2500x3, 2x1500 meshes with a dead link, 3x2400 torus; "
         "oracle only); object-reuse histories (one Machine, route(), in-place add/update/discard/clear of dead_links "
         "and add/discard of dead_chips, route() again; every call judged against the fault sets tracked by the "
-        "harness); 1-3 nets, "
+        "harness); shared-net cases (2-8 nets per call drawing sources and sinks from a pool of 2-5 chips with 2-4 "
+        "vertices each, repeated and twin nets with identical endpoint chips, 0-4 dead links; 300 compared + 4000 "
+        "oracle-only); 1-3 nets, "
         "fan-out 0..2*chips, sinks on the source chip, duplicated sinks, core allocations / endpoint constraints / "
         "neither, radius in {0,1,2,3,20}, scripted random stream (random / all-zero / all-max / few values / edge "
         "values); every 25th case has a sink on a dead chip (not judged). ner_net alone on fault-free meshes and tori "
